@@ -39,3 +39,114 @@ pub fn run_bytes(target: &str, data: &[u8]) -> Result<(), Viol> {
         _ => Ok(()),
     }
 }
+
+// ---------------------------------------------------------------------------------------------
+// Coverage-guided campaign (thorough tiers): runs `cargo +nightly fuzz run` on a target of
+// /verif/fuzz with a fresh corpus (plus the committed seeds), a fixed -runs/-seed, and turns a
+// crash artifact into an ordinary replay case of the owning property.
+
+use crate::runner::{PartOutcome, RunCtx};
+use serde_json::json;
+use std::collections::BTreeMap;
+use std::process::Command;
+
+pub fn replay_bytes_case(input: &serde_json::Value) -> Result<Result<(), Viol>, String> {
+    let target = input.get("target").and_then(|x| x.as_str()).ok_or("no target")?.to_string();
+    let bytes: Vec<u8> = input
+        .get("bytes")
+        .and_then(|x| x.as_array())
+        .ok_or("no bytes")?
+        .iter()
+        .map(|b| b.as_u64().unwrap_or(0) as u8)
+        .collect();
+    Ok(run_bytes(&target, &bytes))
+}
+
+pub fn libfuzzer_part(ctx: &RunCtx, target: &str, runs: u64, max_len: usize) -> PartOutcome {
+    let name = format!("libfuzzer_{}", target);
+    let mut out = PartOutcome { name: name.clone(), stats: Stats::default(), failure: None, known_hits: BTreeMap::new(), exhaustive: false };
+    let base = format!("{}/.build/fuzz", crate::runner::VERIF_DIR);
+    let corpus = format!("{}/corpus-{}-{}", base, target, ctx.seed);
+    let arts = format!("{}/artifacts-{}-{}/", base, target, ctx.seed);
+    let _ = std::fs::remove_dir_all(&corpus);
+    let _ = std::fs::remove_dir_all(&arts);
+    let _ = std::fs::create_dir_all(&corpus);
+    let _ = std::fs::create_dir_all(&arts);
+    let seeds = format!("{}/fuzz/seeds/{}", crate::runner::VERIF_DIR, target);
+    let res = Command::new("cargo")
+        .current_dir(crate::runner::VERIF_DIR)
+        .env("RUSTFLAGS", "--cfg sirc_verif --cfg tokio_unstable")
+        .env("CARGO_NET_OFFLINE", "true")
+        .args(["+nightly", "fuzz", "run", "--fuzz-dir", &format!("{}/fuzz", crate::runner::VERIF_DIR), target, &corpus, &seeds, "--"])
+        .arg(format!("-runs={}", runs))
+        .arg(format!("-seed={}", ctx.seed.max(1)))
+        .arg("-len_control=0")
+        .arg(format!("-max_len={}", max_len))
+        .arg(format!("-artifact_prefix={}", arts))
+        .output();
+    let Ok(o) = res else {
+        out.stats.count("libfuzzer_unavailable");
+        eprintln!("[{}] libFuzzer part {} skipped: cargo fuzz could not be started", ctx.id, target);
+        return out;
+    };
+    let err = String::from_utf8_lossy(&o.stderr).to_string();
+    let mut done_runs = 0u64;
+    let mut corp = 0u64;
+    let mut cov = 0u64;
+    for l in err.lines() {
+        if l.starts_with('#') {
+            let toks: Vec<&str> = l.split_whitespace().collect();
+            if let Some(n) = toks.get(0).and_then(|t| t.trim_start_matches('#').parse::<u64>().ok()) {
+                done_runs = done_runs.max(n);
+            }
+            for (i, t) in toks.iter().enumerate() {
+                if *t == "cov:" {
+                    cov = toks.get(i + 1).and_then(|x| x.parse().ok()).unwrap_or(cov);
+                }
+                if *t == "corp:" {
+                    corp = toks.get(i + 1).and_then(|x| x.split('/').next()).and_then(|x| x.parse().ok()).unwrap_or(corp);
+                }
+            }
+        }
+    }
+    if done_runs == 0 && !err.contains("FUZZ-VIOLATION") && !o.status.success() {
+        out.stats.count("libfuzzer_unavailable");
+        eprintln!("[{}] libFuzzer part {} skipped: {}", ctx.id, target, err.lines().rev().take(3).collect::<Vec<_>>().join(" | "));
+        return out;
+    }
+    out.stats.evaluations = done_runs;
+    out.stats.add("coverage_edges", cov);
+    out.stats.add("corpus_inputs", corp);
+    // corpus entries are the inputs libFuzzer kept because they reached new coverage
+    if let Ok(rd) = std::fs::read_dir(&corpus) {
+        for (i, e) in rd.flatten().enumerate() {
+            let fname = e.file_name().to_string_lossy().to_string();
+            if let Ok(b) = std::fs::read(e.path()) {
+                let sig = format!("corpus:{}", fname);
+                let shown = String::from_utf8_lossy(&b[..b.len().min(80)]).to_string();
+                out.stats.nontrivial(sig, || json!({"target": target, "corpus_input": shown}));
+            }
+            if i > 200_000 {
+                break;
+            }
+        }
+    }
+    // crash artifact -> replay case
+    if let Ok(rd) = std::fs::read_dir(&arts) {
+        for e in rd.flatten() {
+            if let Ok(b) = std::fs::read(e.path()) {
+                if let Err(v) = run_bytes(target, &b) {
+                    if ctx.is_known(&v).is_some() {
+                        continue;
+                    }
+                    out.failure = Some((json!({"target": target, "bytes": b}), v));
+                    break;
+                } else {
+                    // crashed in the fuzz build but not reproducible in-process: report as machinery note
+                    ctx.machinery(format!("libFuzzer artifact {:?} does not reproduce in the harness", e.path()));
+                }
+            }
+        }
+    }
+    out
+}
